@@ -54,6 +54,12 @@ class ByteVar:
         p = op_place(o)
         if p is None or seen > 8:
             return False
+        if len(p["p"]) == 1 and isinstance(p["p"][0], dict) and "f" in p["p"][0] and not p["p"][0].get("adt"):
+            # (a, b).1 == b : a component of a tuple built just before (`match (flag, byte) { .. }`)
+            d = self.b.single_def(p["l"])
+            if d and d[2] == "rv" and d[3]["k"] == "agg" and d[3]["kind"].get("a") == "tuple" and p["p"][0]["f"] < len(d[3]["ops"]):
+                return self._as_var(d[3]["ops"][p["p"][0]["f"]], seen + 1)
+            return False
         if p["p"] == ["*"]:
             # *(&x)  ==  x
             d = self.b.single_def(p["l"])
@@ -67,6 +73,11 @@ class ByteVar:
         if p["p"]:
             return False
         d = self.b.single_def(p["l"])
+        if d is not None and d[2] == "call" and len(d[3]["args"]) == 1:
+            # usize::from(b) / b.into(): a widening integer conversion keeps the byte value
+            f = d[3]["f"]
+            if (f.get("fn") or "").rsplit("::", 1)[-1] in ("from", "into") and re.search(r"<(u16|u32|u64|usize|i16|i32|i64|isize) as std::convert::From<u8>>|<u8 as std::convert::Into<", f.get("full") or ""):
+                return self._as_var(d[3]["args"][0], seen + 1)
         if d is None or d[2] != "rv":
             return False
         rv = d[3]
@@ -198,6 +209,22 @@ class ByteVar:
             if d and d[2] == "rv" and d[3]["k"] == "bin" and d[3]["op"].endswith("WithOverflow"):
                 return self._val_rv(d[3], x, depth - 1)
             return None
+        if len(p["p"]) == 1 and isinstance(p["p"][0], dict) and "idx" in p["p"][0]:
+            # TABLE[i]: an element of a constant integer array (the compiler evaluated the table)
+            d = self.b.single_def(p["l"])
+            k = None
+            if d and d[2] == "rv" and d[3]["k"] in ("use", "ref"):
+                k = op_const(d[3]["o"]) if d[3]["k"] == "use" else None
+            c = self.F.consts.get(k.get("def")) if k is not None and k.get("def") else None
+            m = re.match(r"^\[(u8|u16|u32|i8|i16|i32); (\d+)\]$", (c or {}).get("ty", ""))
+            if c is None or "raw" not in c or not m:
+                return None
+            i = self._val({"c": {"l": p["p"][0]["idx"], "p": []}}, x, depth - 1)
+            size = {"u8": 1, "i8": 1, "u16": 2, "i16": 2, "u32": 4, "i32": 4}[m.group(1)]
+            if i is None or not (0 <= i < int(m.group(2))):
+                return None
+            raw = bytes.fromhex(c["raw"])
+            return int.from_bytes(raw[i * size:(i + 1) * size], "little", signed=m.group(1).startswith("i"))
         if p["p"]:
             return None
         d = self.b.single_def(p["l"])
@@ -244,6 +271,11 @@ class ByteVar:
                 return None
             return self.FULL if v else frozenset()
         p = op_place(o)
+        if p is not None and len(p["p"]) == 1 and isinstance(p["p"][0], dict) and "f" in p["p"][0] and not p["p"][0].get("adt") and depth > 0:
+            d = self.b.single_def(p["l"])
+            if d and d[2] == "rv" and d[3]["k"] == "agg" and d[3]["kind"].get("a") == "tuple" and p["p"][0]["f"] < len(d[3]["ops"]):
+                return self.truth(d[3]["ops"][p["p"][0]["f"]], depth - 1)
+            return None
         if p is None or p["p"] or depth <= 0:
             return None
         defs = [d for d in self.b.defs.get(p["l"], [])]
